@@ -469,13 +469,50 @@ def r4_3_append_only(rep, facts):
     rep.floor("R4.3", "accesses to reply buffers", n, 8)
 
 
+def nv_bounded(facts, owner_npath):
+    """E8: at every NVIter::new(slice) reachable in the function that answers GetValues, the slice is no longer than the record's
+    remaining payload (self.payload_rem at that point).  -> (number of decoder constructions seen, [(text, trace)] failures)"""
+    import regions as R
+    from . import c03
+    cs = dict(c03._contracts())
+    seen = []
+    bad = []
+
+    def c_nv_new(it, st, args, dty):
+        L = it.slice_len(args[0], st["ctx"])
+        pr = st["heap"].get("payload_rem")
+        seen.append(1)
+        if L is None or not isinstance(pr, R.Lin):
+            bad.append(("the decoder's input length or the remaining payload is not tracked", list(st["trace"])))
+        elif not st["ctx"].le(L, pr):
+            bad.append(("the decoder is given %s byte(s) while %s remain of the record's payload" % (L, pr), list(st["trace"])))
+        return ('nvit', L) if L is not None else it.opaque()
+    cs["protocol::nv::NVIter::new"] = c_nv_new
+    b = facts.body(owner_npath)
+    if owner_npath.startswith("parser::stream::"):
+        it = R.Interp(facts, c03.CURSORS, len_of="buffer", inline={c03.SP + "::is_record_boundary"}, contracts={k: v for k, v in cs.items() if k != owner_npath})
+    else:
+        it = R.Interp(facts, [], len_of=None, contracts=cs)
+    it.pre_fields = [("payload_rem", "u16"), ("padding_rem", "u8")]
+    it.run(b)
+    return len(seen), bad
+
+
 def r4_2_getvalues(rep, facts):
     """write_response is reached only when the rest of the body is available and the body is non-empty;
     the name-value decoder is given at most the record's remaining payload."""
     sites = [(b, bi, t) for (b, bi, t, name) in F.calls_to(facts, lambda n: n == "protocol::vars::ProtocolVariables::write_response")
              if b.npath.startswith("parser::")]
     rep.floor("R4.2", "write_response call sites in the parsers", len(sites), 2)
+    # a site inside a helper that is new relative to the pinned tree is analysed in the function(s) calling the helper
+    from . import common as _common0
+    owner_bodies = []
     for (b, bi, t) in sites:
+        for ow in sorted(_common0.owners(facts, b.npath)):
+            ob = facts.body(ow)
+            if ob not in owner_bodies:
+                owner_bodies.append(ob)
+    for b in owner_bodies:
         g = ieg.IEG(facts, b, inline_filter=lambda x: False)
         rows = paths.rows(g, max_paths=30000)
         reach = [r for r in rows if r.called("protocol::vars::ProtocolVariables::write_response")]
@@ -510,11 +547,6 @@ def r4_2_getvalues(rep, facts):
             ok_complete = ok_complete and comp
             # the stream parser's payload step is only entered under `payload_rem > 0` by its caller: accept a dominating test in the caller
             ok_nonempty = ok_nonempty and (nonempty or b.npath.startswith("parser::stream::"))
-            nv = r.called("protocol::nv::NVIter::new")
-            for c in nv:
-                a = c[1][0]
-                bounded = any(y[0] == 'call' and y[1].endswith("::min") and any(z[0] == 'field' and z[2] == 'payload_rem' for z in ir.walk(y)) for y in ir.walk(a))
-                ok_bounded = ok_bounded and bounded
             if len(r.called("protocol::vars::ProtocolVariables::write_response")) != 1:
                 ok_once = False
             # after the reply, the record's payload is marked consumed on the same path
@@ -529,10 +561,19 @@ def r4_2_getvalues(rep, facts):
             rep.ok("R4.2", key + "/complete-body", "GetValuesResult is emitted only on the false edge of `available < payload_rem` (whole remaining body present)", b.loc())
         else:
             rep.violation("R4.2", key + "/complete-body", "a reply can be emitted while part of the GetValues body is still outstanding", b.loc())
-        if ok_bounded:
-            rep.ok("R4.2", key + "/decoder-bounded", "the name-value decoder sees at most min(available, payload_rem) bytes of the record", b.loc())
+        # decided on values (E8) in the pinned-tree function on whose behalf this code runs
+        from . import common as _common
+        nb_seen, nb_bad = 0, []
+        for ow in sorted(_common.owners(facts, b.npath)):
+            ns_, nb_ = nv_bounded(facts, ow)
+            nb_seen += ns_
+            nb_bad += nb_
+        if nb_bad:
+            rep.violation("R4.2", key + "/decoder-bounded", "the name-value decoder is given bytes beyond the record's payload (reply would depend on read chunking): %s" % nb_bad[0][0], b.loc(), path=nb_bad[0][1][-8:])
+        elif not nb_seen:
+            rep.undecidable("R4.2", key + "/decoder-bounded", "no construction of the name-value decoder was interpreted", b.loc())
         else:
-            rep.violation("R4.2", key + "/decoder-bounded", "the name-value decoder is given bytes beyond the record's payload (reply would depend on read chunking)", b.loc())
+            rep.ok("R4.2", key + "/decoder-bounded", "at every construction of the name-value decoder its input is no longer than self.payload_rem (E8, %d path(s))" % nb_seen, b.loc())
         if ok_once and ok_nonempty:
             rep.ok("R4.2", key + "/once", "exactly one reply on the completing path, only for a non-empty body; the payload is marked consumed", b.loc())
         else:
